@@ -1857,6 +1857,12 @@ size_t rtosc_scan_arg_val(const char* src,
                                                            &type);
                     if(!arg->type) // the first occurrence determines the type
                      arg->type = type;
+                    else if(arg->type == 'd' && type == 'f')
+                    {
+                        // the lossless part of a double has no 'd' suffix
+                        fmtstr = "%lf%n";
+                        type = 'd';
+                    }
 
                     switch(type)
                     {
